@@ -37,6 +37,18 @@ def _mcall(node, recv=None, meth=None):
     return r, node.func.attr, node.args
 
 
+def _is_lookup(e: ast.AST, mapname: str, key: str) -> bool:
+    """`m[k]`, `m.get(k, <empty>)` or `m.get(k) or <empty>`: the entries
+    recorded for k in m (an absent key has none either way)"""
+    if isinstance(e, ast.BoolOp) and isinstance(e.op, ast.Or) and e.values:
+        e = e.values[0]
+    t = norm(e)
+    if t == f'{mapname}[{key}]':
+        return True
+    return isinstance(e, ast.Call) and norm(e.func) == f'{mapname}.get' \
+        and bool(e.args) and norm(e.args[0]) == key
+
+
 def run(repo: Repo, ctx) -> None:
     ctx.explanation = (
         'Decides shape clauses of the DFS in edb.common.topological.sort_ex: '
@@ -117,7 +129,7 @@ def run(repo: Repo, ctx) -> None:
     def loops_over(mapname):
         out = []
         for n in g.nodes:
-            if n.kind == 'for' and norm(n.ast.iter) == f'{mapname}[{item}]':
+            if n.kind == 'for' and _is_lookup(n.ast.iter, mapname, item):
                 body_calls = [call_name(c) for st in n.ast.body
                               for c in ast.walk(st)
                               if isinstance(c, ast.Call)]
@@ -149,9 +161,12 @@ def run(repo: Repo, ctx) -> None:
                'order.append(item) and visited.add(item) are not paired',
                loc(e), sample='order.append <-> visited.add on all normal paths')
         # guarded by `item not in visited`
-        guards = [t.id for t in g.nodes if t.kind == 'test'
-                  and norm(t.ast) == f'{item} not in visited']
-        ok = any(g.edge_dominates(t, 'T', e) for t in guards)
+        # (path fact: for an item already in `visited` the emission is
+        # not reachable, whichever way the membership test is written)
+        from ..absint import Facts, open_nodes
+        Fv = Facts({f'{item} in visited': True}, visit.node)
+        onv = open_nodes(g, Fv)
+        ok = bool(Fv.used) and e not in onv
         ctx.ob('C20.R2', f'{visit.qualname}:emit-guarded-by-not-visited', ok,
                'order.append(item) not dominated by `item not in visited`',
                loc(e), sample='guard `item not in visited` dominates emission')
@@ -225,6 +240,30 @@ def run(repo: Repo, ctx) -> None:
         sinks = set()
         raises_unresolved = False
         guard_ok = False
+        def alias_of(name, lp=lp):
+            """the map a local stands for when every binding of it in the
+            loop is `M[key]`, `M.get(key..)`, `M.setdefault(key..)` or
+            `x = M[key] = <new set>` (fetch-or-create)"""
+            maps = set()
+            for a in ast.walk(lp):
+                if isinstance(a, ast.Assign) and any(
+                        norm(t) == name for t in a.targets):
+                    m_ = None
+                    for c_ in [a.value] + [t for t in a.targets
+                                           if norm(t) != name]:
+                        if isinstance(c_, ast.Subscript) and norm(
+                                c_.slice) == key_var:
+                            m_ = norm(c_.value)
+                        elif isinstance(c_, ast.Call) and isinstance(
+                                c_.func, ast.Attribute) and c_.func.attr in (
+                                'get', 'setdefault') and c_.args and norm(
+                                c_.args[0]) == key_var:
+                            m_ = norm(c_.func.value)
+                    if m_ is None:
+                        return None
+                    maps.add(m_)
+            return maps.pop() if len(maps) == 1 else None
+        aliases = {}
         for c in ast.walk(lp):
             if isinstance(c, ast.Call) and isinstance(c.func, ast.Attribute) \
                     and c.func.attr == 'add' and len(c.args) == 1 \
@@ -233,6 +272,9 @@ def run(repo: Repo, ctx) -> None:
                 if isinstance(recv, ast.Subscript) \
                         and norm(recv.slice) == key_var:
                     sinks.add(norm(recv.value))
+                elif isinstance(recv, ast.Name) and alias_of(recv.id):
+                    aliases[recv.id] = alias_of(recv.id)
+                    sinks.add(aliases[recv.id])
                 else:
                     sinks.add(norm(recv))
         for n in ast.walk(lp):
@@ -257,7 +299,10 @@ def run(repo: Repo, ctx) -> None:
             if isinstance(n, ast.If):
                 t = norm(n.test)
                 if t not in (f'{var} in graph', 'not allow_unresolved',
-                             'allow_unresolved', f'{var} not in graph'):
+                             'allow_unresolved', f'{var} not in graph') \
+                        and not any(t in (f'{a_} is None', f'not {a_}',
+                                          f'{a_} is not None', a_)
+                                    for a_ in aliases):
                     extra_guards.append(t)
         ctx.ob('C20.R3', f'{sort_ex.qualname}:every-resolved={field}',
                not extra_guards,
@@ -304,6 +349,28 @@ def run(repo: Repo, ctx) -> None:
                           else n.target) == mp]
         ok = len(inits) == 1 and norm(inits[0].value) == \
             'defaultdict(OrderedSet)'
+        if not ok and len(inits) == 1 and norm(inits[0].value) in (
+                '{}', 'dict()'):
+            # a plain dict: the per-key containers are made where entries
+            # are stored; look at what is stored under the map
+            ctors = set()
+            for a in ast.walk(sort_ex.node):
+                if isinstance(a, ast.Assign):
+                    for t in a.targets:
+                        if isinstance(t, ast.Subscript) and norm(
+                                t.value) == mp and isinstance(
+                                a.value, ast.Call):
+                            ctors.add(norm(a.value.func))
+                if isinstance(a, ast.Call) and isinstance(
+                        a.func, ast.Attribute) and a.func.attr == \
+                        'setdefault' and norm(a.func.value) == mp and \
+                        len(a.args) == 2 and isinstance(a.args[1], ast.Call):
+                    ctors.add(norm(a.args[1].func))
+            if not ctors:
+                raise AnalysisError(
+                    f'C20.R3: {mp} is a plain dict and no per-key container '
+                    f'construction was found: cannot decide the order')
+            ok = ctors == {'OrderedSet'}
         ctx.ob('C20.R3', f'{sort_ex.qualname}:ordered-adjacency={mp}', ok,
                f'adjacency map {mp} is initialised as '
                f'{norm(inits[0].value) if inits else None}: iterating a '
